@@ -276,4 +276,4 @@ def st_chain(ctx: Ctx):
     return st.lists(st.lists(fld, min_size=1, max_size=3), min_size=1, max_size=3).map(mk)
 
 
-PARTS = [Part("chains", check_chain, strategy=st_chain, quick=2000, thorough=100000)]
+PARTS = [Part("chains", check_chain, strategy=st_chain, quick=3200, thorough=100000)]
